@@ -649,4 +649,118 @@ theorem reach_congr {rq1 rq2 : Reqs} {up1 up2 : Option (Mod → Option Mod)} {ta
   | root => exact Reach.root
   | step a b _ hb ih => exact Reach.step a b ih (he a b hb)
 
+/-! ### fuel sufficiency of the exploration: in a finite universe `U` closed under `edges`, `explore` finishes within
+`|todo| + Σ_{n ∈ U not yet visited} (1 + deg n)` steps -/
+
+def visited (log : List (Mod × List Mod)) (n : Mod) : Bool := log.any (·.1 = n)
+
+/-- the work still ahead: one step per pending item, and for every module of the universe not yet visited one step to
+visit it plus one to pop each of the items it will push -/
+def workLeft (rq : Reqs) (up : Option (Mod → Option Mod)) (U : List Mod) (log : List (Mod × List Mod)) : Nat :=
+  ((U.filter fun n => ! visited log n).map fun n => 1 + (edges rq up n).length).sum
+
+theorem workLeft_visit (rq : Reqs) (up : Option (Mod → Option Mod)) (n : Mod) (req : List Mod) (log : List (Mod × List Mod))
+    (hn : visited log n = false) : ∀ (U : List Mod), n ∈ U →
+    workLeft rq up U ((n, req) :: log) + (1 + (edges rq up n).length) ≤ workLeft rq up U log := by
+  intro U
+  induction U with
+  | nil => intro h; cases h
+  | cons x xs ih =>
+    intro hmem
+    have hmono : workLeft rq up xs ((n, req) :: log) ≤ workLeft rq up xs log := by
+      clear ih hmem
+      induction xs with
+      | nil => simp [workLeft]
+      | cons y ys ih2 =>
+        simp only [workLeft, List.filter_cons] at ih2 ⊢
+        by_cases hy : visited log y = true
+        · have : visited ((n, req) :: log) y = true := by simp [visited, List.any_cons] at hy ⊢; exact Or.inr hy
+          simp only [hy, this, Bool.not_true, Bool.false_eq_true, ↓reduceIte]; exact ih2
+        · have hy' : visited log y = false := by simpa using hy
+          by_cases hyn : visited ((n, req) :: log) y = true
+          · simp only [hy', hyn, Bool.not_true, Bool.not_false, Bool.false_eq_true, ↓reduceIte, List.map_cons, List.sum_cons]
+            omega
+          · have hyn' : visited ((n, req) :: log) y = false := by simpa using hyn
+            simp only [hy', hyn', Bool.not_false, ↓reduceIte, List.map_cons, List.sum_cons]
+            omega
+    simp only [workLeft, List.filter_cons] at ih hmono ⊢
+    by_cases hx : x = n
+    · subst hx
+      have h1 : visited ((x, req) :: log) x = true := by simp [visited, List.any_cons]
+      simp only [h1, hn, Bool.not_true, Bool.not_false, Bool.false_eq_true, ↓reduceIte, List.map_cons, List.sum_cons]
+      omega
+    · have hxs : n ∈ xs := by
+        rcases List.mem_cons.mp hmem with h | h
+        · exact absurd h.symm hx
+        · exact h
+      have ih' := ih hxs
+      have hvx : visited ((n, req) :: log) x = visited log x := by
+        have : ¬ n = x := fun h => hx h.symm
+        simp [visited, List.any_cons, this]
+      rw [hvx]
+      cases hv : visited log x
+      · simp only [Bool.not_false, ↓reduceIte, List.map_cons, List.sum_cons]; omega
+      · simp only [Bool.not_true, Bool.false_eq_true, ↓reduceIte]; exact ih'
+
+/-- in a finite universe closed under the edges of the exploration, `explore` never runs out of fuel once the fuel covers
+the work left -/
+theorem explore_fuel (rq : Reqs) (up : Option (Mod → Option Mod)) (U : List Mod)
+    (hU : ∀ n ∈ U, ∀ m ∈ edges rq up n, m ∈ U) :
+    ∀ (fuel : Nat) (todo : List Mod) (log : List (Mod × List Mod)) (err : Bool), (∀ n ∈ todo, n ∈ U) →
+      todo.length + workLeft rq up U log ≤ fuel → (explore rq up fuel todo log err).isSome := by
+  intro fuel
+  induction fuel with
+  | zero =>
+    intro todo log err _ hle
+    cases todo with
+    | nil => simp [explore]
+    | cons n t => simp at hle
+  | succ f ih =>
+    intro todo log err hin hle
+    cases todo with
+    | nil => simp [explore]
+    | cons n t =>
+      simp only [explore]
+      split
+      · apply ih t log err (fun m hm => hin m (List.mem_cons_of_mem _ hm))
+        simp only [List.length_cons] at hle; omega
+      · rename_i hv
+        have hv' : visited log n = false := by
+          unfold visited
+          cases h : log.any (·.1 = n)
+          · rfl
+          · exact absurd h hv
+        have hnU := hin n List.mem_cons_self
+        have hw := workLeft_visit rq up n (workItem rq up n).1 log hv' U hnU
+        apply ih
+        · intro m hm
+          rcases List.mem_append.mp hm with h1 | h1
+          · exact hU n hnU m h1
+          · exact hin m (List.mem_cons_of_mem _ h1)
+        · simp only [List.length_cons, List.length_append] at hle ⊢
+          have : (workItem rq up n).1.length = (edges rq up n).length := rfl
+          omega
+
+/-- `buildList` answers (a list, a build-list error, or a panic) — never `Err.fuel` — as soon as the fuel exceeds
+`1 + Σ_{n ∈ U} (1 + deg n)` for a finite universe `U` that contains the target and is closed under edges -/
+theorem buildListWith_fuel (rq : Reqs) (up : Option (Mod → Option Mod)) (target : Mod) (U : List Mod)
+    (ht : target ∈ U) (hU : ∀ n ∈ U, ∀ m ∈ edges rq up n, m ∈ U) (fuel : Nat)
+    (hf : 1 + (U.map fun n => 1 + (edges rq up n).length).sum ≤ fuel) :
+    buildListWith fuel rq up target ≠ .error .fuel := by
+  have hsome := explore_fuel rq up U hU fuel [target] [] false
+    (fun n hn => by rw [List.mem_singleton.mp hn]; exact ht)
+    (by
+      have : workLeft rq up U [] = (U.map fun n => 1 + (edges rq up n).length).sum := by
+        simp [workLeft, visited, List.filter_eq_self.mpr]
+      rw [this]; simpa using hf)
+  unfold buildListWith
+  cases hx : explore rq up fuel [target] [] false with
+  | none => rw [hx] at hsome; simp at hsome
+  | some r =>
+    obtain ⟨log, err⟩ := r
+    dsimp only
+    split
+    · simp
+    · split <;> simp
+
 end Dawn.Mvs
